@@ -6,6 +6,7 @@
    the implementation by the sweep (lib/c13.py); determinism of the parse itself is C08's theorem. *)
 From Coq Require Import List NArith Bool.
 From GV Require Import Model.ErrFlow Proofs.ErrFlowP Gen.ErrSites Inst.Inst_C13.
+From GV Require Gen.LexTables Model.Lexer Model.Loc Proofs.LexErrLocP.
 Import ListNotations.
 Local Open Scope N_scope.
 
@@ -70,8 +71,30 @@ Qed.
 Example ex_codes : chain_codes (Wrapw 2 (Cause 7 2004 (Leaf 6 2007))) = [2004; 2007].
 Proof. reflexivity. Qed.
 
+(* ---- the tokenizer's own errors (model Model/Lexer.v, proofs Proofs/LexErrLocP.v) ----
+   every error Tokenize returns is either the size-limit rejection at 1:1 or carries toSQLPosition of a byte offset
+   that is at most the length of the input (the end of the input is a legitimate error position) ... *)
+Theorem C13_tokenizer_error_offset :
+  forall max_in max_tok bs c l k, Lexer.tokenize_with max_in max_tok bs = Lexer.Err c l k ->
+  (c = LexTables.E_InputTooLarge /\ l = 1%N /\ k = 1%N) \/
+  exists i, (i <= N.of_nat (length bs))%N /\ (l, k) = Lexer.to_loc bs i.
+Proof. exact LexErrLocP.tokenize_err_offset. Qed.
+
+(* ... hence the reported location lies inside the input: line and column are 1-based, the line is at most the number
+   of lines of the input, and the column is at most the width of that line + 1 (s = byte offset at which line l
+   starts: s = 0 or the byte before s is LF, and l = 1 + number of LF before s) *)
+Theorem C13_tokenizer_error_location_inside :
+  forall max_in max_tok bs c l k, Lexer.tokenize_with max_in max_tok bs = Lexer.Err c l k ->
+  (1 <= l)%N /\ (1 <= k)%N /\ (N.to_nat l <= 1 + Loc.count_lf bs)%nat /\
+  exists s, ((s <= length bs)%nat /\ (s = 0%nat \/ nth_error bs (s - 1) = Some Loc.LF) /\
+             N.to_nat l = (1 + Loc.count_lf (firstn s bs))%nat) /\
+            (N.to_nat k <= 1 + Loc.width (Loc.line_bytes bs s))%nat.
+Proof. exact LexErrLocP.tokenize_err_location_inside. Qed.
+
 Print Assumptions C13_structured_reachable.
 Print Assumptions C13_cause_reachable.
 Print Assumptions C13_origin_code_exposed.
 Print Assumptions C13_cause_reachable_refuted_at_rewrap_sites.
 Print Assumptions C13_observed_shape_derivable.
+Print Assumptions C13_tokenizer_error_offset.
+Print Assumptions C13_tokenizer_error_location_inside.
